@@ -31,6 +31,16 @@ fn prim(v: &Val, bad_stream: &Option<Primitive>) -> Primitive {
         Val::Stream(t, n) => {
             let mut d = Dictionary::new(); d.insert("Tag", Primitive::Integer(*t as i32));
             let data: Vec<u8> = (0..*n).map(|i| (i as u32 * 31 + *t) as u8).collect();
+            if t % 4 == 1 {
+                // a stream behind two filters, the second with parameters (hex of zlib of PNG rows of 4 bytes, row tag 0)
+                let mut rows = Vec::new();
+                for ch in data.chunks(4) { rows.push(0u8); rows.extend_from_slice(ch); rows.resize(rows.len() + 4 - ch.len(), 0); }
+                let z = miniz_oxide::deflate::compress_to_vec_zlib(&rows, 6);
+                let mut hex: Vec<u8> = z.iter().flat_map(|b| format!("{:02x}", b).into_bytes()).collect(); hex.push(b'>');
+                let parms = pdf::enc::LZWFlateParams { predictor: 12, n_components: 1, bits_per_component: 8, columns: 4, early_change: 1 };
+                let st = Stream::new_with_filters(d, hex, vec![pdf::enc::StreamFilter::ASCIIHexDecode, pdf::enc::StreamFilter::FlateDecode(parms)]);
+                return Primitive::Stream(st.to_pdf_stream(&mut NoUpdate).expect("filtered stream"));
+            }
             Primitive::Stream(Stream::new(d, data).to_pdf_stream(&mut NoUpdate).expect("stream"))
         }
         // an in-file stream of the base document: its serialisation is not supported, so a save containing it fails
